@@ -58,7 +58,18 @@ def _pad(tree):
     return tree
 
 
-KINDS = {"unparse": lambda t: t, "rename": _rename, "pad": _pad}
+def _kwshuffle(tree):
+    """Reverse the order of the named keyword arguments of every call (evaluation order of pure arguments is irrelevant)."""
+    for node in ast.walk(tree):
+        if isinstance(node, ast.Call) and sum(1 for k in node.keywords if k.arg) > 1:
+            named = [k for k in node.keywords if k.arg]
+            named.reverse()
+            it = iter(named)
+            node.keywords = [next(it) if k.arg else k for k in node.keywords]
+    return tree
+
+
+KINDS = {"unparse": lambda t: t, "rename": _rename, "pad": _pad, "kwshuffle": _kwshuffle}
 
 
 def make_twin(src: Path, dst: Path, kind: str) -> int:
